@@ -216,6 +216,10 @@ class Gen:
                     stmts.append((gd, self.expr(q)))
                     if gd:
                         self.features[f"guard_{gd}"] += 1
+                if rng.random() < 0.2:
+                    # a final statement for the lower-triangle blocks only (summed with what the earlier ones give)
+                    stmts.append(("lower", self.expr(q)))
+                    self.features["guard_lower"] += 1
             self.series.append(s)
         outputs = [self.all_names[int(k)] for k in sorted(rng.choice(n_series, size=int(rng.integers(1, min(3, n_series) + 1)), replace=False))]
         self.outputs = outputs
@@ -582,7 +586,7 @@ def finalize(c, tier, evaluations, distinct):
                 shipped_main=20, shipped_nonhermitian=20, flag_differential_elements=1000, construct_marker=50, construct_conditional=50,
                 construct_function_of_series=30, construct_function_of_expr=50, construct_nested_function=10, construct_product_2=100,
                 construct_product_3=30, construct_recursive_product=50, construct_hermitian_product=30, construct_hermitian_product_3=10, construct_guard_diagonal=100, construct_guard_offdiagonal=100,
-                construct_guard_sandwich=20, custom_diag_offdiag=50)
+                construct_guard_sandwich=20, construct_guard_lower=20, custom_diag_offdiag=50)
     for k, v in need.items():
         if c.get(k, 0) < v:
             reasons.append(f"{k} observed only {c.get(k, 0)} (< {v})")
